@@ -1277,6 +1277,35 @@ func OrderOf(prog *load.Program, info *types.Info, e ast.Expr) string {
 		if pkg == nil {
 			return "other"
 		}
+		// a local alias (be := binary.BigEndian): defined exactly once, never reassigned
+		if v.Parent() != nil && v.Parent() != v.Pkg().Scope() {
+			var def ast.Expr
+			n := 0
+			for _, f := range pkg.Syntax {
+				if f.Pos() > v.Pos() || f.End() < v.Pos() {
+					continue
+				}
+				ast.Inspect(f, func(nd ast.Node) bool {
+					as, ok := nd.(*ast.AssignStmt)
+					if !ok {
+						return true
+					}
+					for i, l := range as.Lhs {
+						if id, ok := l.(*ast.Ident); ok && (pkg.TypesInfo.Defs[id] == v || pkg.TypesInfo.Uses[id] == v) {
+							n++
+							if len(as.Lhs) == len(as.Rhs) {
+								def = as.Rhs[i]
+							}
+						}
+					}
+					return true
+				})
+			}
+			if n == 1 && def != nil {
+				return OrderOf(prog, pkg.TypesInfo, def)
+			}
+			return "other"
+		}
 		for _, f := range pkg.Syntax {
 			for _, d := range f.Decls {
 				gd, ok := d.(*ast.GenDecl)
